@@ -891,6 +891,13 @@ impl<'a> Model<'a> {
 /// After all lookups: mark glyphs whose combination of effects is outside the unambiguous core.
 pub fn finalize(o: &mut Outcome) {
     let n = o.g.len();
+    // which glyph a nested lookup with other flags than its parent lands on is engine-specific:
+    // nothing in such a run is judged
+    if o.amb.contains("nested-lookup-different-flags") || o.amb.contains("nested-lookup-type") {
+        for g in o.g.iter_mut() {
+            g.nojudge = true;
+        }
+    }
     // cursive glyphs that also carry adjustments
     let mut in_link = vec![false; n];
     for i in 0..n {
